@@ -65,6 +65,15 @@ def order_test(v, first, second):
     """+1 when the condition v is `first is before second` (first > second in the reversed heap order, or first.cmp(second) == Greater),
     -1 when it is `first is after second`, 0 when it is not a comparison of the two events themselves"""
     x = strip_upd(v)
+    if x[0] in ('pcall', 'call') and re.search(r'SweepEvent::<F>::(is_before|is_after)$', x[1]) and len(x[2]) == 2:
+        # the named helpers (their meaning is O-noequal's business)
+        sa, sb = show(noepoch(x[2][0])), show(noepoch(x[2][1]))
+        d = 1 if x[1].endswith('is_before') else -1
+        if first in sa and second in sb and second not in sa and first not in sb:
+            return d
+        if second in sa and first in sb and first not in sa and second not in sb:
+            return -d
+        return 0
     if x[0] != 'op' or len(x) != 4:
         return 0
     s = show(noepoch(x))
@@ -193,6 +202,8 @@ def atom_of(v):
         return ('unknown', show(noepoch(x))[:80])
     if k == 'pcall' and x[1] == ISBELOW:
         return ('is_below', ent(x[2][0]), point_ent(x[2][1]))
+    if k == 'pcall' and x[1] == ISBELOW.replace('is_below', 'is_above'):
+        return ('not', ('is_below', ent(x[2][0]), point_ent(x[2][1])))
     if k == 'pcall' and x[1] == LESS_IF:
         return ('less_if', atom_of(x[2][0]))
     if k == 'field' and x[2] == 'is_subject':
@@ -266,7 +277,7 @@ def ev_atom(at, g, role):
         s = orient_sign(pts, g, role)
         if s is None:
             raise ValueError('orientation of %s' % (pts,))
-        return (s != 0) if op == 'ne' else (s == 0)
+        return {'ne': s != 0, 'eq': s == 0, 'gt': s > 0, 'lt': s < 0, 'ge': s >= 0, 'le': s <= 0}[op]
     if k == 'is_below':
         _, who, pt = at
         # is_below(X, q): X.left ? orient(X.point, X.other.point, q) > 0 : orient(X.other.point, X.point, q) > 0
